@@ -355,6 +355,21 @@ impl WsClient {
             }
         }
     }
+    /// Ends the connection with a TCP reset instead of a closing handshake.
+    pub fn reset(self) {
+        use std::os::unix::io::AsRawFd;
+        let lin = libc::linger { l_onoff: 1, l_linger: 0 };
+        unsafe {
+            libc::setsockopt(self.s.as_raw_fd(), libc::SOL_SOCKET, libc::SO_LINGER, &lin as *const _ as *const libc::c_void, std::mem::size_of::<libc::linger>() as libc::socklen_t);
+        }
+        drop(self);
+    }
+    /// Sends a frame that violates the protocol (reserved opcode, unmasked) and leaves: the server ends the session itself.
+    pub fn protocol_error(mut self) {
+        let _ = self.s.write_all(&[0x8b, 0x02, b'x', b'y']);
+        std::thread::sleep(Duration::from_millis(20));
+        drop(self);
+    }
     pub fn close(mut self) {
         self.send_frame(8, &[0x03, 0xe8]);
         let _ = self.recv(Duration::from_millis(300));
